@@ -92,6 +92,7 @@ RETCODE adfMountHdFile ( struct AdfDevice * const dev )
     dev->nVol++;      /* fixed by Dan, ... and by Gary */
 
     vol->volName=NULL;
+    vol->blockSize = 512;
     
     dev->cylinders = dev->size/512;
     dev->heads = 1;
